@@ -29,6 +29,18 @@ CHECKS = {
         text="Seeded histories of absolute/relative seeks, counted reads, buffer reads and read_block on 1-3 file streams, arguments biased to every file boundary; after every operation returned bytes and reported position are compared with a plain byte-array model; fault runs assert exact-or-raises and re-synchronisation by an absolute seek.",
         note="Trusted: harness file encoder and byte model. Offsets aligned to the item size at 16/32 bit. Streams <= 192 samples.",
     ),
+    "C07": dict(
+        level="exploration", ref="DESIGN.md §4 C07",
+        technique="deterministic simulation: seeded streaming-transform runs on a simulated disk (chunking, sub-range, batch knobs; read faults, ENOSPC) vs whole-array reference definitions; ddmin replay",
+        text="Each of the 8 streaming file-to-file transforms is run under seeded gulps, sub-ranges, depths, file splits and arguments; every output file is parsed by the harness' own parser and compared with the whole-array definition (bit-exact, |v-mean|<1, one quantisation level), plus declared depth/nchans and inferred sample count. Fault runs (short read, EIO, ENOSPC) assert raises-or-exact.",
+        note="Trusted: harness encoder/parser and numpy definitions; dispersion delays are taken from the library (C09 owns them). Files <= 160 samples, <= 16 channels, kernels on 1 thread.",
+    ),
+    "C20": dict(
+        level="fault_enumeration", ref="DESIGN.md §4 C20",
+        technique="deterministic simulation with enumerated crash points: golden run snapshots after every write, then one re-execution per write index (crash, torn write, ENOSPC) and per sampled read, plus every truncation length, survivors re-opened with FilReader",
+        text="Scenarios (writer, arguments, gulp, sub-range) are seeded; within a scenario every point between two consecutive writes is enumerated (crash after write k for all k; torn/ENOSPC at byte offsets of write k; crash at sampled input reads) and every byte-length truncation of every final output at or after the header is re-opened with the library's reader. Snapshot invariants: first write = exactly one complete header, append-only, complete at return.",
+        note="Assumes process death, not power loss (the library never syncs). Torn/ENOSPC writes are emulated by truncating right after the real write, guarded by an append-only check on every call. to_dat/to_fft (PRESTO, header-less) are outside; a torn header write is outside the statement.",
+    ),
 }
 
 
